@@ -3,6 +3,8 @@ package main
 import (
 	"context"
 	"fmt"
+	"go.brendoncarroll.net/p2p/s/udpswarm"
+	"net/netip"
 	"strings"
 	"sync"
 	"sync/atomic"
@@ -100,6 +102,20 @@ func c09Configs(g *rng.R, thorough bool) []func() (*c09Stack, error) {
 	add(func() (*c09Stack, error) {
 		st, err := buildUDP(stackOpts{n: n}, "127.0.0.1:0", "udp4")
 		return &c09Stack{st: st, cfg: "udp4"}, err
+	})
+	// dual-stack sockets addressed in the IPv4-mapped spelling
+	add(func() (*c09Stack, error) {
+		st, err := buildUDPMapped(n)
+		return &c09Stack{st: st, cfg: "udp-dual/v4-mapped"}, err
+	})
+	// the in-memory transport with a (transparent) link emulation installed: sizes are checked on that path too
+	add(func() (*c09Stack, error) {
+		realm := memswarm.NewRealm(memswarm.WithQueueLen(256), memswarm.WithMTU(100), memswarm.WithTellTransform(func(*memswarm.Message) bool { return true }))
+		sw := make([]p2p.Swarm[memAddr], n)
+		for i := range sw {
+			sw[i] = realm.NewSwarm()
+		}
+		return &c09Stack{st: mkStack("mem", sw), cfg: "mem/mtu=100/with-tell-transform"}, nil
 	})
 	// fragswarm over recorded mem
 	for _, m := range []int{40, 64, 100, 576, 1280} {
@@ -543,4 +559,31 @@ func c09Run(r *ev.Run, cs *c09Stack, g *rng.R, caseID string) {
 		}
 		r.Sample(map[string]any{"config": cs.cfg, "mtu": mu, "lengths": names})
 	}
+}
+
+// mappedUDP presents a dual-stack udpswarm node under the IPv4-mapped spelling of its loopback address, the way a dual-stack
+// listener reports its IPv4 peers.
+type mappedUDP struct{ *udpswarm.Swarm }
+
+func (m mappedUDP) LocalAddrs() []udpswarm.Addr {
+	var port uint16
+	for _, a := range m.Swarm.LocalAddrs() {
+		port = a.Port
+	}
+	return []udpswarm.Addr{{IP: netip.AddrFrom16(netip.MustParseAddr("127.0.0.1").As16()), Port: port}}
+}
+
+func buildUDPMapped(n int) (*Stack, error) {
+	sw := make([]p2p.Swarm[udpswarm.Addr], n)
+	for i := range sw {
+		s, err := udpswarm.New("[::]:0")
+		if err != nil {
+			for _, x := range sw[:i] {
+				x.Close()
+			}
+			return nil, err
+		}
+		sw[i] = mappedUDP{s}
+	}
+	return mkStack("udp-dual/v4-mapped", sw), nil
 }
